@@ -85,6 +85,12 @@ func (r *Run) crossBuild(repo string) {
 		for _, o := range sub.Obls {
 			switch o.st {
 			case Violated:
+				// a rule that does not find its anchors in this configuration (no Badger without the badger
+				// tag, …) says so through its count obligation: expected here, like a floor failure
+				if strings.Contains(o.Detail, "rule needs review") || strings.HasSuffix(o.Detail, "not found") || strings.Contains(o.Detail, " not found:") || strings.Contains(o.Detail, "found in the compiled back ends") {
+					nu++
+					continue
+				}
 				if noteOnly[tags] {
 					nv++
 					if nv <= 5 {
